@@ -35,14 +35,41 @@ def run(ctx):
     ctx.rule = RULE
     rng = ctx.rng
     flac_lines = []; flac_expect = []
+    import containers
+    from mutagen import _util
+    scenarios = []
     for fmt in F.TAGGABLE:
         samples = fmt.samples[:2] if ctx.quick else fmt.samples
         for sname in samples:
-            data = F.sample_bytes(ctx.repo, sname)
+            scenarios.append((fmt, sname, F.sample_bytes(ctx.repo, sname), {}, "default", [3, 150] if ctx.quick else [3, 150, 1500, 9000]))
+        # growth of several copy-buffer lengths: a small buffer substituted for the 1 MiB default of the _util functions
+        scenarios.append((fmt, fmt.samples[0], F.sample_bytes(ctx.repo, fmt.samples[0]), {}, "small", [1700] if ctx.quick else [900, 1700, 4000]))
+    flac = F.BY_KIND["FLAC"]
+    fl = F.sample_bytes(ctx.repo, flac.samples[0])
+    # FLAC followed by an ID3v1 block, saved with deleteid3=True (the block is to go, but only once the save is through)
+    scenarios.append((flac, flac.samples[0] + "+id3v1", fl + containers.id3v1_block(), {"deleteid3": True}, "default", [150, 1500]))
+    scenarios.append((flac, flac.samples[0] + "+id3v1", fl + containers.id3v1_block(), {"deleteid3": True}, "small", [1700]))
+    # the real 1 MiB buffer with a growth of 2.5 buffers
+    for k in ("MP3", "FLAC"):
+        scenarios.append((F.BY_KIND[k], F.BY_KIND[k].samples[0], F.sample_bytes(ctx.repo, F.BY_KIND[k].samples[0]), {}, "default",
+                          [int(2.5 * _util._DEFAULT_BUFFER_SIZE)]))
+    BUF_FUNCS = [getattr(_util, n) for n in ("resize_file", "move_bytes", "insert_bytes", "delete_bytes", "resize_bytes")]
+    saved_defaults = [f.__defaults__ for f in BUF_FUNCS]
+
+    def set_buffers(mode):
+        for f, d in zip(BUF_FUNCS, saved_defaults):
+            if mode == "small" and d:
+                f.__defaults__ = tuple(257 if x == _util._DEFAULT_BUFFER_SIZE else x for x in d)
+            else:
+                f.__defaults__ = d
+    try:
+      for fmt, sname, data, savekw, bufmode, sizes in scenarios:
+        set_buffers(bufmode)
+        ctx.hist["buffers:" + bufmode] += 1
+        for _once in (0,):
             w0 = walkers.walk(fmt.kind, data)
             if w0.errors:
                 continue
-            sizes = [3, 150] if ctx.quick else [3, 150, 1500, 9000]
             for tsize in sizes:
                 # the tags to save, prepared on an unrestricted copy
                 try:
@@ -53,7 +80,7 @@ def run(ctx):
                     ctx.notes.append("cannot prepare %s: %s" % (sname, type(e).__name__)); break
                 ref = F.NamedBytesIO(data, "x" + fmt.exts[0])
                 try:
-                    ref.seek(0); obj.save(ref, **({"padding": (lambda i: 0)} if fmt.padding else {}))
+                    ref.seek(0); obj.save(ref, **dict(({"padding": (lambda i: 0)} if fmt.padding else {}), **savekw))
                 except Exception as e:
                     ctx.notes.append("reference save failed for %s: %s" % (sname, type(e).__name__)); break
                 growth = len(ref.getvalue()) - len(data)
@@ -65,13 +92,15 @@ def run(ctx):
                         obj, fobj = F.load(fmt, data, "x" + fmt.exts[0])
                         F.put(fmt, obj, 4, "G" * big); F.put(fmt, obj, 0, "t" * (big // 3 + 1))
                         ref = F.NamedBytesIO(data, "x" + fmt.exts[0])
-                        ref.seek(0); obj.save(ref, **({"padding": (lambda i: 0)} if fmt.padding else {}))
+                        ref.seek(0); obj.save(ref, **dict(({"padding": (lambda i: 0)} if fmt.padding else {}), **savekw))
                         growth = len(ref.getvalue()) - len(data)
                     tsize = big
                 if growth <= 0:
                     continue
+                if savekw.get("deleteid3"):
+                    growth += 128       # the ID3v1 block goes only after the enlargement: the peak size counts
                 blocks_arg = None
-                if fmt.kind == "FLAC" and not data.startswith(b"ID3"):
+                if fmt.kind == "FLAC" and not data.startswith(b"ID3") and not savekw and bufmode == "default" and growth < 100000:
                     blocks_arg = ",".join("%d:%s" % (b.code, hx(b.write())) for b in obj.metadata_blocks if b.code != 1)
                 for r in cap_values(growth, ctx.quick, rng) + [growth]:
                     for leak in ((0,) if (ctx.quick and r % 3) else (0, 5)):
@@ -83,11 +112,12 @@ def run(ctx):
                             F.put(fmt, o2, 4, "G" * tsize)
                             F.put(fmt, o2, 0, "t" * (tsize // 3 + 1))
                             capf.seek(0)
-                            o2.save(capf, **({"padding": (lambda i: 0)} if fmt.padding else {}))
+                            o2.save(capf, **dict(({"padding": (lambda i: 0)} if fmt.padding else {}), **savekw))
                         kind, res = timed(attempt, 20)
                         after = capf.getvalue()
-                        case = {"format": fmt.kind, "sample": sname, "tag_growth": growth, "remaining_capacity": r, "leak": leak}
-                        ctx.case(key=(fmt.kind, sname, growth, r, leak), nontrivial=(r < growth), modelled=(blocks_arg is not None),
+                        case = {"format": fmt.kind, "sample": sname, "tag_growth": growth, "remaining_capacity": r, "leak": leak,
+                                "buffers": bufmode, "save_kwargs": sorted(savekw)}
+                        ctx.case(key=(fmt.kind, sname, growth, r, leak, bufmode), nontrivial=(r < growth), modelled=(blocks_arg is not None),
                                  sample=case if (r == 1 and leak == 0 and tsize == 150 and sname == fmt.samples[0] and fmt.kind in ("FLAC", "MP3")) else None)
                         ctx.hist["fmt:" + fmt.kind] += 1
                         if r >= growth:
@@ -131,6 +161,8 @@ def run(ctx):
                         if blocks_arg is not None and len(flac_lines) < ctx.budget(400, 4000):
                             flac_lines.append("flacc op=save data=%s blocks=%s pad=0 cap=%d leak=%d" % (hx(data), blocks_arg, len(data) + r, leak))
                             flac_expect.append((case, "err mutagen" if kind != "ok" else "ok", hx(after)))
+    finally:
+        set_buffers("default")
     if ctx.model_ok() and flac_lines:
         for line, (case, st, dat) in zip(ctx.driver.ask(flac_lines), flac_expect):
             ctx.traces_validated += 1
